@@ -154,3 +154,8 @@ package css
 //@   loop 1 invariant l.r.pos > old(l.r.pos)
 //@   loop 1 invariant[T] l.r.start == old(l.r.start)
 //@   loop 1 decreases len(l.r.buf) - l.r.pos
+
+//@ func Lexer.Err
+//@   requires[S] lexInv(l)
+//@ func NewLexer
+//@   ensures[S]  result != nil && result.r == r
